@@ -5,6 +5,7 @@ package c09
 
 import (
 	"bytes"
+	"encoding/json"
 	"fmt"
 	"net"
 	"os"
@@ -50,6 +51,9 @@ type Step struct {
 type Case struct {
 	Proto string `json:"proto"`
 	Steps []Step `json:"steps"`
+	// JSON: the exporting process is configured with SendJSONRecord (phase json_mode, tcp): templates
+	// are registered but not written, every record of a valid data set goes out as one JSON document
+	JSON bool `json:"json,omitempty"`
 }
 
 var (
@@ -64,9 +68,12 @@ func TestMain(m *testing.M) {
 		if rp.Phase == "transient_write_failure" {
 			ev.RunReplay(rp, runTransient)
 		}
+		if rp.Phase == "json_mode" {
+			ev.RunReplay(rp, func(c Case) *ev.Failure { return runJSON(c, nil) })
+		}
 		ev.RunReplay(rp, func(c Case) *ev.Failure { return runCase(c, nil) })
 	}
-	rec = ev.New("C09", "sessions mixing valid template/data sends with: data for an id never sent, records with a wrong field count (-1, +1, 0), an Undefined set, data and template sets whose message length is each value around the 65535-byte limit (enumerated every run), and values that cannot be encoded for their element (IPv4 element holding an IPv6 address or nil, IPv6 element holding 5 bytes, MAC of length != 6, fixed-length octet array of the wrong length); a harness-owned socket captures every byte and every invalid step is followed by a valid marker message; non-trivial = an invalid step followed by a valid one whose bytes were verified; distinct by hash of the case",
+	rec = ev.New("C09", "sessions mixing valid template/data sends with: data for an id never sent, records with a wrong field count (-1, +1, 0), an Undefined set, data and template sets whose message length is each value around the 65535-byte limit (enumerated every run), and values that cannot be encoded for their element (IPv4 element holding an IPv6 address or nil, IPv6 element holding 5 bytes, MAC of length != 6, fixed-length octet array of the wrong length) through every way of building a set (AddRecord, AddRecordWithExtraElements, AddRecordV2, MakeTemplateSet / MakeDataSet); a second phase runs unknown-id / wrong-count / undefined sets against an exporting process in JSON output mode (refused sets write nothing, every accepted record is one JSON document, byte counts add up); a harness-owned socket captures every byte and every invalid step is followed by a valid marker message; non-trivial = an invalid step followed by a valid one whose bytes were verified; distinct by hash of the case",
 		"reference codec refipfix", "loopback sockets deliver what was written, in order")
 	code := m.Run()
 	rec.Write()
@@ -333,6 +340,7 @@ func runCase(c Case, st *Stats) *ev.Failure {
 			good := []ref.Value{{U: 1}, {B: []byte{10, 1, 2, 3}}, {B: net.ParseIP("2001:db8::1")}, {B: []byte{1, 2, 3, 4, 5, 6}}, {B: []byte{9, 8, 7, 6, 5}}, {U: 2}}
 			r := append([]ref.Value(nil), good...)
 			var want []byte
+			var faithful []ref.Value
 			switch s.Ill {
 			case "v6_in_ipv4":
 				r[1] = ref.Value{B: net.ParseIP("2001:db8::2")}
@@ -356,14 +364,23 @@ func runCase(c Case, st *Stats) *ev.Failure {
 				r[2] = ref.Value{B: []byte{192, 0, 2, 1}}
 				w := append([]ref.Value(nil), good...)
 				w[2] = ref.Value{B: net.ParseIP("192.0.2.1").To16()}
+				faithful = w
 				want = ref.DataMessage(h, ref.Template{ID: idIll, Fields: illTpl()}, [][]ref.Value{good, w})
 			case "v4mapped_in_ipv4": // faithful: 16-byte form of an IPv4 address
 				r[1] = ref.Value{B: net.ParseIP("198.51.100.7").To16()}
 				w := append([]ref.Value(nil), good...)
 				w[1] = ref.Value{B: []byte{198, 51, 100, 7}}
+				faithful = w
 				want = ref.DataMessage(h, ref.Template{ID: idIll, Fields: illTpl()}, [][]ref.Value{good, w})
 			}
-			set, err := exph.DataSet(idIll, illTpl(), [][]ref.Value{good, r}, s.Path)
+			recs := [][]ref.Value{good, r}
+			if s.Path == exph.PathMake { // MakeDataSet builds sets of one record: the ill-typed one alone
+				recs = recs[1:]
+				if want != nil {
+					want = ref.DataMessage(h, ref.Template{ID: idIll, Fields: illTpl()}, [][]ref.Value{faithful})
+				}
+			}
+			set, err := exph.DataSet(idIll, illTpl(), recs, s.Path)
 			if want != nil {
 				// either outcome is allowed for a value that has a faithful encoding: an error, or the faithful bytes
 				fl = send(i, "record with "+s.Ill, set, err, want, true)
@@ -426,6 +443,210 @@ func runCase(c Case, st *Stats) *ev.Failure {
 		}
 	}
 	return nil
+}
+
+// jsonOK: element types the JSON output mode supports.
+// jsonOK: element types the JSON output mode supports for every value (no octet arrays; floats are
+// left out because JSON has no NaN / infinities, for which an error is the right answer).
+func jsonOK(f ref.Field) bool {
+	return f.Type != ref.TOctets && f.Type != ref.TF32 && f.Type != ref.TF64
+}
+
+// runJSON: the same acceptance rule with the exporting process in JSON mode. A data set goes out
+// only for a template id registered by an earlier template send on this process and only with
+// that template's field count; a refused set writes nothing; every accepted record is one JSON
+// document ({"@timestamp":…,"ipfix":{…}}) and SendSet reports exactly the bytes written.
+func runJSON(c Case, st *Stats) *ev.Failure {
+	if st == nil {
+		st = &Stats{}
+	}
+	peer, err := exph.NewPeer("tcp", false)
+	if err != nil {
+		return nil
+	}
+	defer peer.Close()
+	ep, err := exporter.InitExportingProcess(exporter.ExporterInput{CollectorAddress: peer.Addr, CollectorProtocol: "tcp", ObservationDomainID: 77,
+		TempRefTimeout: 3600, CheckConnInterval: time.Hour, SendJSONRecord: true})
+	if err != nil {
+		return ev.Failf("InitExportingProcess (JSON mode): %v", err)
+	}
+	defer ep.CloseConnToCollector()
+	total, docs := 0, 0
+	var names []int // per expected document: number of distinct element names
+	sawInvalid := false
+	var tpls []Step
+	registered := map[uint16]bool{}
+	distinct := func(fs []ref.Field) int {
+		m := map[string]bool{}
+		for _, f := range fs {
+			m[glue.IE(f).Name] = true
+		}
+		return len(m)
+	}
+	valid := func(i int, what string, set entities.Set, berr error, nrec, nnames int) *ev.Failure {
+		if berr != nil {
+			return ev.Failf("step %d (%s): building the set failed: %v", i, what, berr)
+		}
+		n, err := ep.SendSet(set)
+		if err != nil {
+			return ev.Failf("step %d (%s): valid send failed in JSON mode: %v", i, what, err)
+		}
+		total += n
+		docs += nrec
+		for k := 0; k < nrec; k++ {
+			names = append(names, nnames)
+		}
+		if sawInvalid && nrec > 0 {
+			st.InvalidThenValid = true
+		}
+		return nil
+	}
+	invalid := func(i int, what string, set entities.Set, berr error) *ev.Failure {
+		sawInvalid = true
+		if berr != nil {
+			return nil
+		}
+		if n, err := ep.SendSet(set); err == nil {
+			stream, _ := peer.WaitStream(total+n, 300*time.Millisecond)
+			return ev.Failf("step %d (%s): invalid send reported success in JSON mode (%d bytes); the connection now holds %d bytes, %d were written by valid sends", i, what, n, len(stream), total)
+		}
+		return nil
+	}
+	mf := []ref.Field{glue.UserField(ref.TU32)}
+	marker := func(i int) *ev.Failure {
+		if !registered[idMarker] {
+			set, err := exph.TemplateSet(idMarker, mf, 0)
+			if fl := valid(i, "marker template", set, err, 0, 0); fl != nil {
+				return fl
+			}
+			registered[idMarker] = true
+		}
+		set, err := exph.DataSet(idMarker, mf, [][]ref.Value{{{U: uint64(0xABCD0000 + i)}}}, 0)
+		return valid(i, "marker data", set, err, 1, 1)
+	}
+	for i, s := range c.Steps {
+		var fl *ev.Failure
+		switch s.Kind {
+		case "tpl":
+			set, err := exph.TemplateSet(s.ID, s.Fields, s.Path)
+			fl = valid(i, "template", set, err, 0, 0)
+			registered[s.ID] = true
+			tpls = append(tpls, s)
+		case "data":
+			if len(tpls) == 0 {
+				continue
+			}
+			tp := tpls[s.Of%len(tpls)]
+			set, err := exph.DataSet(tp.ID, tp.Fields, s.Recs, s.Path)
+			fl = valid(i, "data", set, err, len(s.Recs), distinct(tp.Fields))
+		case "data_unknown_id":
+			if registered[s.ID] {
+				continue
+			}
+			set, err := exph.DataSet(s.ID, []ref.Field{glue.UserField(ref.TU16)}, [][]ref.Value{{{U: 1}}}, s.Path)
+			if fl = invalid(i, fmt.Sprintf("data for template id %d that was never sent", s.ID), set, err); fl == nil {
+				fl = marker(i)
+			}
+		case "data_wrong_count":
+			if len(tpls) == 0 {
+				continue
+			}
+			tp := tpls[s.Of%len(tpls)]
+			fields := append([]ref.Field(nil), tp.Fields...)
+			if s.Delta < 0 {
+				fields = fields[:len(fields)-1]
+			} else {
+				fields = append(fields, glue.UserField(ref.TU8))
+			}
+			r := make([]ref.Value, len(fields))
+			for k, f := range fields {
+				if f.Type.IsBytes() {
+					r[k] = ref.Value{B: make([]byte, f.Type.Width())}
+				}
+			}
+			set, err := exph.DataSet(tp.ID, fields, [][]ref.Value{r}, s.Path)
+			if fl = invalid(i, fmt.Sprintf("record with %d fields for a template of %d", len(fields), len(tp.Fields)), set, err); fl == nil {
+				fl = marker(i)
+			}
+		case "undefined":
+			set := entities.NewSet(false)
+			set.ResetSet()
+			if fl = invalid(i, "set of Undefined type", set, nil); fl == nil {
+				fl = marker(i)
+			}
+		}
+		if fl != nil {
+			return fl
+		}
+	}
+	stream, _ := peer.WaitStream(total, 20*time.Second)
+	time.Sleep(time.Millisecond)
+	stream, _ = peer.WaitStream(total, time.Second)
+	if len(stream) != total {
+		return ev.Failf("JSON mode: the connection holds %d bytes, SendSet reported %d for the valid sends", len(stream), total)
+	}
+	dec := json.NewDecoder(bytes.NewReader(stream))
+	for k := 0; k < docs; k++ {
+		var doc struct {
+			TS    string                 `json:"@timestamp"`
+			IPFIX map[string]interface{} `json:"ipfix"`
+		}
+		if err := dec.Decode(&doc); err != nil {
+			return ev.Failf("JSON mode: document %d of %d on the connection does not parse: %v", k, docs, err)
+		}
+		if len(doc.IPFIX) != names[k] || doc.TS == "" {
+			return ev.Failf("JSON mode: document %d carries %d elements (timestamp %q), the record has %d distinct element names", k, len(doc.IPFIX), doc.TS, names[k])
+		}
+	}
+	if dec.More() {
+		return ev.Failf("JSON mode: more than the %d documents of the valid sends are on the connection", docs)
+	}
+	return nil
+}
+
+func genJSONCase(t *rapid.T) Case {
+	c := Case{Proto: "tcp", JSON: true}
+	var jp []ref.Field
+	for _, f := range pool {
+		if jsonOK(f) {
+			jp = append(jp, f)
+		}
+	}
+	nextID := uint16(256)
+	var tpls []Step
+	for n := rapid.IntRange(1, 10).Draw(t, "n"); n > 0; n-- {
+		k := rapid.IntRange(0, 7).Draw(t, "kind")
+		if len(tpls) == 0 && (k == 1 || k == 2 || k == 4) {
+			k = 0
+		}
+		s := Step{Path: rapid.IntRange(0, 3).Draw(t, "path")}
+		switch k {
+		case 0:
+			s.Kind, s.ID = "tpl", nextID
+			nextID++
+			for j := rapid.IntRange(1, 6).Draw(t, "nf"); j > 0; j-- {
+				s.Fields = append(s.Fields, jp[rapid.IntRange(0, len(jp)-1).Draw(t, "f")])
+			}
+			tpls = append(tpls, s)
+		case 1, 2:
+			s.Kind, s.Of = "data", rapid.IntRange(0, len(tpls)-1).Draw(t, "of")
+			for j := rapid.IntRange(1, 3).Draw(t, "nrec"); j > 0; j-- {
+				s.Recs = append(s.Recs, gen.Record(t, tpls[s.Of].Fields, 100))
+			}
+		case 3, 5:
+			s.Kind, s.ID = "data_unknown_id", rapid.SampledFrom([]uint16{255, 999, 4000, 40000, 65535}).Draw(t, "uid")
+		case 4, 6:
+			if len(tpls) == 0 {
+				s.Kind = "undefined"
+				break
+			}
+			s.Kind, s.Of, s.Delta = "data_wrong_count", rapid.IntRange(0, len(tpls)-1).Draw(t, "of"), rapid.SampledFrom([]int{-1, 1}).Draw(t, "delta")
+		default:
+			s.Kind = "undefined"
+		}
+		c.Steps = append(c.Steps, s)
+	}
+	return c
 }
 
 // runTransient: a template whose write fails for a transient reason (connected UDP socket, nobody
@@ -495,7 +716,7 @@ func genCase(t *rapid.T) Case {
 		if ntpl == 0 && (k == 1 || k == 2 || k == 4) {
 			k = 0
 		}
-		s := Step{Path: rapid.IntRange(0, 2).Draw(t, "path")}
+		s := Step{Path: rapid.IntRange(0, 3).Draw(t, "path")}
 		switch k {
 		case 0:
 			s.Kind, s.ID = "tpl", nextID
@@ -582,7 +803,7 @@ func TestC09(t *testing.T) {
 			}
 		}
 		for _, ill := range ills {
-			for path := 0; path < 3; path++ {
+			for path := 0; path < 4; path++ {
 				c := Case{Proto: proto, Steps: []Step{{Kind: "illtyped", Ill: ill, Path: path}}}
 				if f := runRecorded("enum_illtyped", c); f != nil {
 					rec.Violation("enum_illtyped", c, f.Msg)
@@ -598,5 +819,16 @@ func TestC09(t *testing.T) {
 			t.Fatalf("%s", f.Msg)
 		}
 	}
-	ev.Rapid(t, rec, "sessions", rec.Scale(2500, 1500000), genCase, func(c Case) *ev.Failure { return runRecorded("sessions", c) })
+	if !ev.Rapid(t, rec, "sessions", rec.Scale(2500, 1500000), genCase, func(c Case) *ev.Failure { return runRecorded("sessions", c) }) {
+		return
+	}
+	ev.Rapid(t, rec, "json_mode", rec.Scale(600, 200000), genJSONCase, func(c Case) *ev.Failure {
+		st := &Stats{}
+		f := runJSON(c, st)
+		rec.Case(ev.Hash(c), st.InvalidThenValid, "json_mode")
+		if len(c.Steps) <= 3 {
+			rec.Sample("json_mode", c)
+		}
+		return f
+	})
 }
